@@ -1,4 +1,4 @@
-import BiotiteModel.Proofs.C03
+import BiotiteModel.Proofs.C03Kmer
 import BiotiteModel.Gen.C03
 /-!
 # C03 — property theorems (symbol encoding is a bijection; sequences behave like their strings)
@@ -215,6 +215,40 @@ theorem C03_fuse_defect :
 theorem C03_gen_fuse_guard : Gen.C03.fuseGuardOp = ">" ∧ Gen.C03.fuseGuardHasLowerBound = false := by
   decide
 
+/-- On valid codes the guard defect is invisible: `fuse` as written equals the corrected `fuse`. -/
+theorem C03_fuse_eq_checked_on_valid (n k : Nat) (cs : List Int) (h : ∀ c ∈ cs, 0 ≤ c ∧ c < (n : Int)) :
+    fuse n k cs = fuseChecked n k cs := by
+  have h1 : cs.any (fun c => decide (c > (n : Int))) = false := by
+    simp only [List.any_eq_false, decide_eq_true_eq]; intro c hc; have := h c hc; omega
+  have h2 : cs.any (fun c => decide (c < 0 ∨ c ≥ (n : Int))) = false := by
+    simp only [List.any_eq_false, decide_eq_true_eq]; intro c hc; have := h c hc; omega
+  simp only [fuse, fuseChecked, h1, h2]
+
+/-- The contiguous windows used below are `seq[i : i+k]` for `i = 0 .. len-k`, in this order. -/
+theorem C03_windows_spec (k : Nat) (hk : 1 ≤ k) (seq : List Nat) :
+    windows k seq = (List.range (seq.length + 1 - k)).map fun i => (seq.drop i).take k :=
+  windows_eq_range k hk seq
+
+/-- **Rolling computation = direct computation** (`_create_continuous_kmers`): for every base,
+every `k ≥ 1` and every code sequence the result — including which error is raised — is the
+correctly guarded `fuse` mapped over the contiguous windows; a too short sequence is a `ValueError`.
+(The first k-mer is the naive sum, every further one `(prev - seq[i-1]·n^(k-1))·n + seq[i+k-1]`.) -/
+theorem C03_rolling_eq_direct (n k : Nat) (hk : 1 ≤ k) (seq : List Nat) :
+    createKmers n k none seq =
+      if seq.length < k then .error .valueError
+      else mapE (fun w => fuseChecked n k (w.map Int.ofNat)) (windows k seq) :=
+  kmersContinuous_spec n k hk seq
+
+/-- The same for spaced k-mers (`_create_spaced_kmers`): window `i` reads `seq[i + o]` for the
+offsets `o` of the spacing model (sorted by the constructor, so the last one is the largest). -/
+theorem C03_spaced_eq_direct (n k : Nat) (spacing : List Nat) (hl : spacing.length = k) (last : Nat)
+    (hlast : spacing.getLast? = some last) (hmax : ∀ o ∈ spacing, o ≤ last) (seq : List Nat) :
+    createKmers n k (some spacing) seq =
+      if seq.length < last + 1 then .error .valueError
+      else mapE (fun i => fuseChecked n k ((spacedWindow seq spacing i).map Int.ofNat))
+        (List.range (seq.length - last)) :=
+  kmersSpaced_spec n k spacing hl last hlast hmax seq
+
 /-! ## Translation -/
 
 /-- Complete translation is the codon-by-codon table lookup: it is defined exactly for lengths
@@ -342,6 +376,10 @@ example : letterDecodeMultiple [65, 67, 71, 84] false [3, 1] = .ok [84, 67] := b
 example : ([65, 67, 71, 84] : List Nat).Nodup ∧ ([65, 67, 71, 84] : List Nat).length < 256 := by decide
 example : fuse 4 3 [3, 1, 2] = .ok 54 ∧ split 4 3 54 = .ok [3, 1, 2] := by decide
 example : fuse 4 3 [5, 0, 0] = .error .alphabetError ∧ split 4 3 64 = .error .alphabetError := by decide
+example : createKmers 4 3 none [0, 1, 2, 3, 3] = .ok [6, 27, 47] ∧ windows 3 [0, 1, 2, 3, 3] = [[0, 1, 2], [1, 2, 3], [2, 3, 3]] := by decide
+example : createKmers 4 3 none [0, 1, 2, 4, 3] = .error .alphabetError ∧ createKmers 4 3 none [0, 1] = .error .valueError := by decide
+example : createKmers 4 3 (some [0, 2, 3]) [0, 1, 2, 3, 3] = .ok [11, 31] ∧ spacedWindow [0, 1, 2, 3, 3] [0, 2, 3] 1 = [1, 3, 3] ∧
+    ([0, 2, 3] : List Nat).getLast? = some 3 := by decide
 example : (Seq.new 0 [65, 67] [67, 65]).bind (fun s => s.reverse.symbols) = .ok [65, 67] := by decide
 example : numberToCodon 53 = [3, 1, 1] ∧ codonNumber [3, 1, 1] = some 53 := by decide
 example : complementCodes Gen.C03.nucAmb Gen.C03.complDict [0, 4, 14] = .ok [3, 5, 14] := by decide +kernel
